@@ -30,15 +30,23 @@ Qed.
 
 (* the source of call_main_witness: the checked program with its annotations erased *)
 Definition call_main_source : fprog := mkfprog (map (fun d => FDDef (erase_def d)) (fcpdefs call_main_witness)).
-Lemma fun2core_call_main_typing_refuted_lemma :
+Lemma fun2core_call_main_typing_refuted_before_fix_lemma :
   exists (src : fprog) (p : fcprog) (c : cprog),
     has_type_b src = true /\ Check.check src = COk p /\ annotated_fcprog p = true /\
-    compile_prog p = Fun2Core.Ok c /\ wt_core c = false /\
+    compile_prog_before_fix p = Fun2Core.Ok c /\ wt_core c = false /\
     shadowing_risk_prog p = false /\ calls_main_prog p = true /\ barendregt p = true /\
     prog_tyguard p = false.
 Proof.
   exists call_main_source, call_main_witness.
-  destruct (compile_prog call_main_witness) as [c|m] eqn:E; [|vm_compute in E; discriminate].
+  destruct (compile_prog_before_fix call_main_witness) as [c|m] eqn:E; [|vm_compute in E; discriminate].
   exists c. repeat split; try (vm_compute; reflexivity).
+  revert E. vm_compute. intros E. inversion E. reflexivity.
+Qed.
+(* ... the repaired translation of the same program (fix <commitmain>) is well typed *)
+Lemma call_main_typing_witness_fixed_lemma :
+  exists c, compile_prog call_main_witness = Fun2Core.Ok c /\ wt_core c = true /\ calls_main_prog call_main_witness = true.
+Proof.
+  destruct (compile_prog call_main_witness) as [c|m] eqn:E; [|vm_compute in E; discriminate].
+  exists c. split; [reflexivity|]. split; [|vm_compute; reflexivity].
   revert E. vm_compute. intros E. inversion E. reflexivity.
 Qed.
